@@ -1,6 +1,8 @@
 #!/usr/bin/env bash
 # usage: tool/mutcheck.sh <patch.diff> <Cxx> [tier]   - run a check against a scratch worktree with the patch applied
 set -u
+# one run at a time: the scratch worktree /tmp/mt is shared
+exec 7>/tmp/mutcheck.lock; flock 7
 PATCH=$1; PROP=$2; TIER=${3:-quick}
 MT=/tmp/mt
 if [ ! -d $MT ]; then git -C /repo worktree add -q --detach $MT HEAD; fi
